@@ -20,6 +20,7 @@
    unsound are NOT part of Simp: they are the named deviations of the code (set dv):
      Dev_SimpDollarDq         $"a\\b" becomes $'a\b' (the $ is kept, so the text is now ANSI-C quoted)
      Dev_SimpQuoteInDq        "${i:-"\$x"}" becomes "${i:-'$x'}": inside double quotes ' is literal
+     Dev_SimpInlineWritten    $(( x++ - $x )) becomes $(( x++ - x )): bash substitutes $x before evaluating
    and one harmless one: the code looks at each negation once, so [[ ! ! ! -n $x ]], [[ ! ! ( a ) ]] and
    [[ ! a = b ]] need a second Simplify to reach what the contract gives at once (Dev_SimpOnePass).
    TLC reports for each program whether a deviation changes the meaning IN THE MODEL (field `unsound`
@@ -27,7 +28,7 @@
    (( x = 1 )), cannot arise: the parser rejects `$x =` inside arithmetic.) *)
 EXTENDS ShInterp
 
-SimpDevs == {"Dev_SimpDollarDq", "Dev_SimpQuoteInDq", "Dev_SimpOnePass"}
+SimpDevs == {"Dev_SimpDollarDq", "Dev_SimpQuoteInDq", "Dev_SimpOnePass", "Dev_SimpInlineWritten"}
 AssignOps == {"=", "+=", "-=", "*="}
 NameChars == {"x", "y", "z", "i", "l", "a"}
 
@@ -36,8 +37,22 @@ NameChars == {"x", "y", "z", "i", "l", "a"}
 RECURSIVE RmParA(_)
 RmParA(e) == IF e.k = "ParenArithm" THEN RmParA(e.X) ELSE e
 SimpleParam(pe) == pe.k = "ParamExp" /\ (DOMAIN pe) \subseteq {"k", "Param", "Short"} /\ pe.Param.Value \in NameChars
-InlineA(e) == IF e.k = "Word" /\ Len(e.Parts) = 1 /\ SimpleParam(e.Parts[1])
-              THEN Wd(<<Lit(<<e.Parts[1].Param.Value>>)>>) ELSE e
+\* $v may lose its $ only if the expression does not assign to v: bash substitutes $v before it evaluates
+\* anything, so in  x++ - $x  the $x is the OLD value while  x++ - x  reads the new one.  W = the names the
+\* whole expression writes.  The code inlines regardless (Dev_SimpInlineWritten).
+InlineA(e, W) == IF e.k = "Word" /\ Len(e.Parts) = 1 /\ SimpleParam(e.Parts[1]) /\ e.Parts[1].Param.Value \notin W
+                 THEN Wd(<<Lit(<<e.Parts[1].Param.Value>>)>>) ELSE e
+RECURSIVE AWrites(_)
+AWrites(e) ==
+  CASE e.k = "Word" -> {}
+    [] e.k = "BinaryArithm" ->
+         (IF e.Op \in AssignOps /\ e.X.k = "Word" /\ Len(e.X.Parts) = 1 /\ e.X.Parts[1].k = "Lit" /\ Len(e.X.Parts[1].Value) = 1
+          THEN {e.X.Parts[1].Value[1]} ELSE {}) \cup AWrites(e.X) \cup AWrites(e.Y)
+    [] e.k = "UnaryArithm" ->
+         (IF e.Op \in {"++", "--"} /\ e.X.k = "Word" /\ Len(e.X.Parts) = 1 /\ e.X.Parts[1].k = "Lit" /\ Len(e.X.Parts[1].Value) = 1
+          THEN {e.X.Parts[1].Value[1]} ELSE {}) \cup AWrites(e.X)
+    [] OTHER -> AWrites(e.X)
+WSet(e, dv) == IF "Dev_SimpInlineWritten" \in dv THEN {} ELSE AWrites(e)
 
 \* the literal of "..." as it is written between single quotes: [ok, v]; ok = every backslash quotes
 \* one of $ " \ ` and there is no single quote
@@ -51,18 +66,20 @@ Unesc(v) ==
        ELSE [ok |-> FALSE, v |-> <<>>]
   ELSE LET r == Unesc(Tail(v)) IN [ok |-> r.ok, v |-> <<Head(v)>> \o r.v]
 
-RECURSIVE SW(_, _, _), SParts(_, _, _, _), SPart(_, _, _), SA(_, _), ST(_, _), SStmt(_, _), SStmts(_, _), SCmd(_, _)
+RECURSIVE SW(_, _, _), SParts(_, _, _, _), SPart(_, _, _), SA(_, _, _), ST(_, _), SStmt(_, _), SStmts(_, _), SCmd(_, _)
 
-TopA(e, dv) == SA(InlineA(RmParA(e)), dv)       \* $(( )), (( )), slice bounds
-IdxA(e, dv) == SA(RmParA(e), dv)                \* indices: parentheses only
+TopA(e, dv) == LET W == WSet(e, dv) IN SA(InlineA(RmParA(e), W), dv, W)       \* $(( )), (( )), slice bounds
+\* indices: parentheses only at the top -- but operands of binary operators and parenthesised
+\* expressions INSIDE an index are inlined like anywhere else
+IdxA(e, dv) == SA(RmParA(e), dv, WSet(e, dv))
 
-SA(e, dv) ==
+SA(e, dv, W) ==
   CASE e.k = "Word" -> SW(e, dv, FALSE)
-    [] e.k = "ParenArithm" -> [e EXCEPT !.X = SA(InlineA(RmParA(e.X)), dv)]
+    [] e.k = "ParenArithm" -> [e EXCEPT !.X = SA(InlineA(RmParA(e.X), W), dv, W)]
     [] e.k = "BinaryArithm" ->
          \* (the parser refuses `$x = 1`, so the left operand of an assignment is always a name already)
-         [e EXCEPT !.X = SA(InlineA(e.X), dv), !.Y = SA(InlineA(e.Y), dv)]
-    [] e.k = "UnaryArithm" -> [e EXCEPT !.X = SA(e.X, dv)]
+         [e EXCEPT !.X = SA(InlineA(e.X, W), dv, W), !.Y = SA(InlineA(e.Y, W), dv, W)]
+    [] e.k = "UnaryArithm" -> [e EXCEPT !.X = SA(e.X, dv, W)]
 
 \* leading double-quoted literal parts of a word; i = next part to look at
 SParts(ps, i, dv, indq) ==
